@@ -5,6 +5,9 @@
 #include <script/interpreter.h>
 #include <script/script.h>
 #include <script/script_error.h>
+#include <script/signingprovider.h>
+#include <addresstype.h>
+#include <pubkey.h>
 
 #include <cstdint>
 #include <span>
@@ -95,9 +98,14 @@ public:
         k += (uint64_t)sv; // BASE = 0, WITNESS_V0 = 1, TAPSCRIPT = 3
         return bit(k);
     }
-    bool CheckSchnorrSignature(std::span<const unsigned char> sig, std::span<const unsigned char> pk, SigVersion, ScriptExecutionData& execdata, ScriptError* serror) const override
+    bool CheckSchnorrSignature(std::span<const unsigned char> sig, std::span<const unsigned char> pk, SigVersion sigversion, ScriptExecutionData& execdata, ScriptError* serror) const override
     {
         uint64_t s0 = sig.empty() ? 0 : sig[0];
+        if (sigversion == SigVersion::TAPROOT) { // key path: m_codeseparator_pos is not initialised; the output key is not known to the model
+            if (bit(s0 + 11)) return true;
+            if (serror) *serror = (s0 % 2 == 0) ? SCRIPT_ERR_SCHNORR_SIG : SCRIPT_ERR_SCHNORR_SIG_SIZE;
+            return false;
+        }
         uint64_t k = s0 + 5 * (uint64_t)(pk.empty() ? 0 : pk[0]) + (uint64_t)execdata.m_codeseparator_pos;
         if (bit(k)) return true;
         if (serror) *serror = (s0 % 2 == 0) ? SCRIPT_ERR_SCHNORR_SIG : SCRIPT_ERR_SCHNORR_SIG_HASHTYPE;
@@ -142,6 +150,46 @@ std::string do_verify(uint64_t f, const CScript& ssig, const CScript& spk, uint3
     std::string a = verify_once(flags, ssig, spk, obits, wit);
     std::string b = verify_once(flags, ssig, spk, obits, wit);
     return a == b ? a : "NONDET";
+}
+
+// a taproot script-path spend of a real tree on the NUMS internal key: the leaf (script, leaf version) alone (depth 0) or next to a
+// sibling leaf (depth 1); witness = args, script, control block [, annex].  commit_ok = false flips a bit of the internal key in
+// the control block; trunc > 0 removes bytes from the end of the control block, trunc < 0 appends zero bytes.
+std::string tap_spend(uint64_t f, int leafver, int depth, const valtype& script, uint32_t obits, bool commit_ok, int trunc,
+                      const std::string& annex, const std::vector<valtype>& args)
+{
+    TaprootBuilder builder;
+    if (depth == 0) {
+        builder.Add(0, script, leafver);
+    } else {
+        const valtype sibling{0x6a};
+        builder.Add(1, script, leafver);
+        builder.Add(1, sibling, 0xc0);
+    }
+    if (!builder.IsComplete()) return "BUILDERR";
+    builder.Finalize(XOnlyPubKey::NUMS_H);
+    CScript spk = GetScriptForDestination(builder.GetOutput());
+    auto spend = builder.GetSpendData();
+    auto it = spend.scripts.find({script, leafver});
+    if (it == spend.scripts.end() || it->second.empty()) return "BUILDERR";
+    valtype control = *it->second.begin();
+    if (!commit_ok) control[5] ^= 0x10;
+    if (trunc > 0) control.resize(control.size() > (size_t)trunc ? control.size() - trunc : 0);
+    if (trunc < 0) control.resize(control.size() + (size_t)(-trunc), 0);
+    std::vector<valtype> wit = args;
+    wit.push_back(script);
+    wit.push_back(control);
+    if (annex != "x") wit.push_back(vd::unhex(annex));
+    return do_verify(f, CScript(), spk, obits, wit);
+}
+std::string tap_key(uint64_t f, uint32_t obits, const valtype& sig, const std::string& annex)
+{
+    TaprootBuilder builder;
+    builder.Finalize(XOnlyPubKey::NUMS_H);
+    CScript spk = GetScriptForDestination(builder.GetOutput());
+    std::vector<valtype> wit{sig};
+    if (annex != "x") wit.push_back(vd::unhex(annex));
+    return do_verify(f, CScript(), spk, obits, wit);
 }
 } // namespace
 
@@ -197,6 +245,20 @@ int main()
             return do_verify(vd::ull(w[1]), script_of(w[3]), script_of(w[4]), (uint32_t)vd::ull(w[5]), wit) + " | " +
                    do_verify(vd::ull(w[2]), script_of(w[3]), script_of(w[4]), (uint32_t)vd::ull(w[5]), wit);
         }
+        if (w[0] == "tapspend" && w.size() >= 10) {
+            std::vector<valtype> args;
+            size_t n = vd::ull(w[9]);
+            for (size_t i = 0; i < n; ++i) args.push_back(vd::unhex(w.at(10 + i)));
+            return tap_spend(vd::ull(w[1]), (int)vd::ll(w[2]), (int)vd::ll(w[3]), vd::unhex(w[4]), (uint32_t)vd::ull(w[5]), w[6] == "1", (int)vd::ll(w[7]), w[8], args);
+        }
+        if (w[0] == "tappair" && w.size() >= 11) {
+            std::vector<valtype> args;
+            size_t n = vd::ull(w[10]);
+            for (size_t i = 0; i < n; ++i) args.push_back(vd::unhex(w.at(11 + i)));
+            return tap_spend(vd::ull(w[1]), (int)vd::ll(w[3]), (int)vd::ll(w[4]), vd::unhex(w[5]), (uint32_t)vd::ull(w[6]), w[7] == "1", (int)vd::ll(w[8]), w[9], args) + " | " +
+                   tap_spend(vd::ull(w[2]), (int)vd::ll(w[3]), (int)vd::ll(w[4]), vd::unhex(w[5]), (uint32_t)vd::ull(w[6]), w[7] == "1", (int)vd::ll(w[8]), w[9], args);
+        }
+        if (w[0] == "tapkey" && w.size() == 5) return tap_key(vd::ull(w[1]), (uint32_t)vd::ull(w[2]), vd::unhex(w[3]), w[4]);
         if (w[0] == "pushonly" && w.size() == 2) return script_of(w[1]).IsPushOnly() ? "1" : "0";
         if (w[0] == "witprog" && w.size() == 2) {
             int version;
